@@ -309,6 +309,8 @@ def gen_cases(ctx):
         c["seed"] = rng.randrange(10**6)
         c["full_mask"] = rng.random() < 0.12
         c["ssl"] = rng.random() < 0.25
+        c["two_pairs"] = rng.random() < 0.3
+        c["slices"] = rng.choice([2, 3, 4])
         cases.append(c)
     return cases
 
@@ -328,7 +330,11 @@ def build_pipeline(c, supervised=True, **extra):
     from direct.data.transforms import fft2, ifft2
 
     # acceleration 1 samples everything: masked k-space and k-space then hold the same values
-    mf = build_masking_function("FastMRIRandom", accelerations=[1 if c.get("full_mask") else 3], center_fractions=[0.25]) if c["mask"] else None
+    if c.get("two_pairs") and not c.get("full_mask"):
+        # which pair a sample gets is part of what the file name decides, for the sampling mask and for the ACS mask alike
+        mf = build_masking_function("FastMRIRandom", accelerations=[3, 2], center_fractions=[0.25, 0.4]) if c["mask"] else None
+    else:
+        mf = build_masking_function("FastMRIRandom", accelerations=[1 if c.get("full_mask") else 3], center_fractions=[0.25]) if c["mask"] else None
     kw = dict(forward_operator=fft2, backward_operator=ifft2, mask_func=mf,
               crop=(c["h"] - 2, c["w"] - 3) if c["crop"] else None, rescale=(c["h"], c["w"] + 2) if c["rescale"] else None, pad=(c["h"] + 3, c["w"] + 4) if c["pad"] else None,
               padding_eps=0.0001 if c["zero_pad"] else 0.0, estimate_body_coil_image=c["body"], estimate_sensitivity_maps=c["sens"], sensitivity_maps_type=M.SensitivityMapType(c["sens_type"]),
@@ -351,7 +357,7 @@ def raw_sample(c, scale=1.0, name="file_a.h5", slice_no=3):
     import numpy as np
 
     r = np.random.RandomState(c["seed"])
-    shape = (c["coils"],) + ((3,) if c["three"] else ()) + (c["h"], c["w"])
+    shape = (c["coils"],) + ((c.get("slices", 3),) if c["three"] else ()) + (c["h"], c["w"])
     k = (r.randn(*shape) + 1j * r.randn(*shape)).astype(np.complex64)
     k[..., : c["w"] // 5] = 0  # a zero-padded border
     # coils far from the anatomy receive little signal: gains over four orders of magnitude
@@ -459,6 +465,41 @@ def oracles(ctx, deep):
     from direct.data import transforms as T
     from direct.data.transforms import ifft2
 
+    def per_sample_crop(c, short):
+        # the same pipeline object serves every sample of a data set: a later sample of another matrix size must be
+        # treated according to its own size (crop given by the sample's reconstruction size, 3-D volumes of other depth)
+        try:
+            # 2-D data: the crop is named by the sample (reconstruction size); 3-D data: an in-plane crop tuple, the
+            # volumes differ in their number of slices
+            by_key = c["crop"] and not c["three"]
+            kw2 = dict(crop="reconstruction_size") if by_key else {}
+            p2 = build_pipeline(c, **kw2)
+            outs2 = []
+            for (dh, dw, ds, nm) in ((0, 0, 0, "file_a.h5"), (4, 2, 2, "file_b.h5"), (2, 6, 1, "file_c.h5")):
+                if c["three"] and c["crop"]:
+                    dh = dw = 0
+                c2 = dict(c, h=c["h"] + dh, w=c["w"] + dw, slices=c.get("slices", 3) + ds)
+                smp = raw_sample(c2, 1.0, nm, 1)
+                rs = (c2["h"] - 2, c2["w"] - 3)
+                if by_key:
+                    smp["reconstruction_size"] = rs + (1,)
+                o = {str(getattr(k, "value", k)): v for k, v in p2(smp).items()}
+                want = rs if c["crop"] else (c2["h"], c2["w"])
+                got = tuple(o["masked_kspace"].shape[-3:-1])
+                if c["three"] and o["masked_kspace"].shape[1] != c2["slices"]:
+                    add(Violation("crop-shape", "a pipeline that has served other volumes returns %d slices for a volume of %d slices (2-D crop)" % (o["masked_kspace"].shape[1], c2["slices"]), {"config": short, "slices": c2["slices"], "earlier_samples": len(outs2)}, {"kind": "crop-per-sample-slices"}))
+                if got != tuple(want):
+                    add(Violation("crop-shape", "a pipeline that has served other samples returns spatial shape %s for a sample whose %s is %s" % (list(got), "reconstruction size" if c["crop"] else "matrix size", list(want)), {"config": short, "sample_shape": [c2["h"], c2["w"]], "earlier_samples": len(outs2)}, {"kind": "crop-per-sample"}))
+                outs2.append(got)
+        except _errors():  # noqa
+            pass
+
+    base_cfg = {f: False for f in FLAGS}
+    base_cfg.update(mask=True, crop=True, sens=True, zero_pad=True, scaling="masked_kspace", percentile=True, coils=2, h=14, w=13, sens_type="rss_estimate", recon="rss", seed=7, full_mask=False, two_pairs=False, slices=2, ssl=False)
+    for three in (False, True):
+        cf = dict(base_cfg, three=three)
+        per_sample_crop(cf, {k: v for k, v in cf.items() if v})
+        runs += 1
     rng = ctx.rng
     cases = gen_cases(ctx)
     if deep:
@@ -523,40 +564,29 @@ def oracles(ctx, deep):
             if "kspace" in b and "target" in b:
                 dim = (1, 2) if not c["three"] else (2, 3)
                 try:
-                    mod = M.ComputeImageModule("kspace", "target", ifft2, type_reconstruction=M.ReconstructionType(c["recon"]))
-                    smp = {"kspace": b["kspace"].unsqueeze(0)}
-                    if "sensitivity_map" in b:
-                        smp["sensitivity_map"] = b["sensitivity_map"].unsqueeze(0)
-                    ref = mod(smp)["target"][0]
+                    # written out here, independently of ComputeImageModule
+                    img = T.ifft2(b["kspace"], dim=dim)
+                    vcx = torch.view_as_complex
+                    if c["recon"] == "rss":
+                        ref = (img**2).sum(-1).sum(0).sqrt()
+                    elif c["recon"] in ("complex", "complex_mod"):
+                        ref = img.sum(0)
+                    else:
+                        if "sensitivity_map" not in b:
+                            raise KeyError("sensitivity_map")
+                        ref = torch.view_as_real((vcx(b["sensitivity_map"].contiguous()).conj() * vcx(img.contiguous())).sum(0))
+                    if c["recon"] in ("complex_mod", "sense_mod"):
+                        ref = (ref**2).sum(-1).sqrt()
                     if ref.shape != b["target"].shape or not torch.allclose(ref, b["target"], rtol=1e-4, atol=1e-5 * max(1.0, float(ref.abs().max()))):
-                        add(Violation("target-from-normalised", "target differs from the reconstruction of the normalised fully sampled k-space", {"config": short}, {"kind": "target"}))
-                except _errors():  # noqa
+                        add(Violation("target-from-normalised", "target (%s) differs from the reconstruction of the normalised fully sampled k-space (max diff %.3g)" % (c["recon"], float((ref - b["target"]).abs().max()) if ref.shape == b["target"].shape else -1), {"config": short}, {"kind": "target", "recon": c["recon"]}))
+                except (KeyError, RuntimeError):  # noqa
                     pass
             if c["crop"] and not c["rescale"] and not c["pad"] and "masked_kspace" in b:
                 want = (c["h"] - 2, c["w"] - 3)
                 if tuple(b["masked_kspace"].shape[-3:-1]) != want:
                     add(Violation("crop-shape", "masked_kspace has spatial shape %s, requested crop %s" % (list(b["masked_kspace"].shape[-3:-1]), list(want)), {"config": short}, {"kind": "crop"}))
-        # the same pipeline object serves every sample of a data set: a later sample of another matrix size must be
-        # treated according to its own size (crop given by the sample's reconstruction size, 3-D volumes of other depth)
         if not ssl and not c["rescale"] and not c["pad"] and not c["compress"]:
-            try:
-                kw2 = dict(crop="reconstruction_size") if c["crop"] else {}
-                p2 = build_pipeline(c, **kw2)
-                outs2 = []
-                for (dh, dw, nm) in ((0, 0, "file_a.h5"), (4, 2, "file_b.h5"), (2, 6, "file_c.h5")):
-                    c2 = dict(c, h=c["h"] + dh, w=c["w"] + dw)
-                    smp = raw_sample(c2, 1.0, nm, 1)
-                    rs = (c2["h"] - 2, c2["w"] - 3)
-                    if c["crop"]:
-                        smp["reconstruction_size"] = rs + (1,)
-                    o = {str(getattr(k, "value", k)): v for k, v in p2(smp).items()}
-                    want = rs if c["crop"] else (c2["h"], c2["w"])
-                    got = tuple(o["masked_kspace"].shape[-3:-1])
-                    if got != tuple(want):
-                        add(Violation("crop-shape", "a pipeline that has served other samples returns spatial shape %s for a sample whose %s is %s" % (list(got), "reconstruction size" if c["crop"] else "matrix size", list(want)), {"config": short, "sample_shape": [c2["h"], c2["w"]], "earlier_samples": len(outs2)}, {"kind": "crop-per-sample"}))
-                    outs2.append(got)
-            except _errors():  # noqa
-                pass
+            per_sample_crop(c, short)
         # all slices of a file get the same mask; another file may get another one
         try:
             key = "sampling_mask" if not ssl else None
